@@ -1,5 +1,5 @@
 (* Property C14 -- statements only; every proof is `exact <lemma from Proofs/>`. *)
-From Erbium Require Import Lib.Base Model.DnsName Model.DnsCodec Proofs.DnsName Proofs.DnsRecord.
+From Erbium Require Import Lib.Base Model.DnsName Model.DnsCodec Proofs.DnsName Proofs.DnsRecord Proofs.DnsPacket.
 
 (* Names, with the dictionary (suffix tree) invariant [tree_ok]: writing a
    well-formed name at the end of a buffer whose dictionary is valid never
@@ -84,8 +84,7 @@ Print Assumptions C14_decoded_is_wf_partial.
    any octets whatsoever is written by the encoder -- anywhere later, against
    any valid dictionary -- such that the decoder returns it again.  (With the
    decoder's former limits, 10 hops and no length bound, this is false: F18, F45.)
-   Full statement wanted (packet level, not yet proved):
-     forall m, wf_pkt m -> encode m = Ok b -> lenN b <= 65535 -> decode b = Ok m. *)
+   The packet-level statement is C14_roundtrip below. *)
 Theorem C14_roundtrip_partial : forall b off n nxt buf kids,
   bytes_ok b = true -> get_domain b off = Ok (n, nxt) ->
   0 < lenN buf -> Forall (tree_ok buf []) kids ->
@@ -118,3 +117,28 @@ Check C14_rr_roundtrip : forall buf kids r,
     Forall (tree_ok (buf ++ b) []) kids' /\ 0 < lenN b /\
     forall post, get_rr (buf ++ b ++ post) (b ++ post, lenN buf) = Ok (r, (post, lenN buf + lenN b)).
 Print Assumptions C14_rr_roundtrip.
+
+(* The packet level, at full strength: for every well-formed message m and every
+   size limit, if the serialiser produced e without dropping a record (second
+   component false; serialise() is size = 65536, and with nothing dropped the
+   result does not depend on the limit -- C04_tcp_complete), the decoder returns
+   exactly m: header bits, opcode, 12-bit rcode, EDNS version/size/DO/options
+   (OPT folding), question and every record of every section with all eleven
+   kinds of record data, names compressed against everything written before.
+   No length hypothesis is needed: pointers only ever target offsets < 0x4000. *)
+Theorem C14_roundtrip : forall m size e,
+  wf_pkt m = true -> encode_sized_t m size = Ok (e, false) -> decode e = Ok m.
+Proof. exact decode_encode. Qed.
+Check C14_roundtrip : forall m size e,
+  wf_pkt m = true -> encode_sized_t m size = Ok (e, false) -> decode e = Ok m.
+Print Assumptions C14_roundtrip.
+
+(* the hypotheses are satisfiable *)
+Example C14_roundtrip_example :
+  let r := {| r_name := [[119]; [97]]; r_class := 1; r_type := 15; r_ttl := 60; r_data := RMx 10 [[109]; [97]] |} in
+  let m := {| qid := 7; rd := true; tc := false; aa := false; qr := true; opcode := 0; cd := false; ad := true;
+              ra := true; rcode := 3843; bufsize := 1232; edns_ver := Some 0; edns_do := true;
+              qname := [[97]]; qtype := 15; qclass := 1; answer := [r]; nameserver := [r]; additional := [];
+              edns := Some [(10, [1;2;3;4;5;6;7;8])] |} in
+  wf_pkt m = true /\ match encode_sized_t m 65536 with Ok (_, t) => t = false | _ => False end.
+Proof. vm_compute. auto. Qed.
